@@ -14,7 +14,7 @@ SPEC = os.path.join(vlib.VERIF, "spec", "func")
 FIELDS = ["env", "cc", "d_gp", "d_vec", "d_k", "d_mm", "ls", "la", "cs", "ca", "fp", "avx", "mmx", "avxc", "nargs", "sa",
           "calls", "ibt", "cp_vec", "cp_k", "cp_mm"]
 
-MAX_CONFIRM = 5          # strict confirmations (one JVM each) of failure groups not listed in KNOWN_FINDINGS
+MAX_CONFIRM = 10         # strict confirmations (one JVM each) of failure groups not listed in KNOWN_FINDINGS
 
 KNOWN_MNEMONICS = {
     "x86": {"push", "pop", "mov", "lea", "add", "sub", "and", "ret", "emms", "vzeroupper", "endbr32", "endbr64", "nop",
@@ -44,14 +44,14 @@ def enumerate_configs(ctx):
     q = ctx.quick
     mod = os.path.join(SPEC, "FrameConfigs.tla")
     r = vlib.run_tlc(ctx, mod, write_cfg(ctx, "cfg_enum.cfg", "quick" if q else "thorough"), workers=4, timeout=1500,
-                     heap="6g", tag="cfgenum")
+                     heap=("2g" if q else "6g"), tag="cfgenum")
     vlib.tlc_must_ok(ctx, r, "FrameConfigs exhaustive")
     tuples = vlib.parse_beh(r.out, tag="CFG")
     n_exh = len(tuples)
     if n_exh == 0:
         raise Broken("FrameConfigs printed no configuration")
-    nsim = 1200 if q else 60000
-    r = vlib.run_tlc(ctx, mod, write_cfg(ctx, "cfg_sim.cfg", "wide"), workers=4, timeout=1500, heap="4g", tag="cfgsim",
+    nsim = 1200 if q else 24000
+    r = vlib.run_tlc(ctx, mod, write_cfg(ctx, "cfg_sim.cfg", "wide"), workers=4, timeout=1500, heap="2g", tag="cfgsim",
                      simulate=nsim // 8, depth=16, seed=ctx.seed)
     if r.kind != "ok":
         raise Broken("FrameConfigs simulation failed: " + r.out[-800:])
@@ -149,7 +149,7 @@ def run_shard(ctx, idx, path, mode, workers, timeout):
             open(cfg, "w").write("SPECIFICATION Spec\nINVARIANT ReportInv\n")
     else:
         cfg = os.path.join(SPEC, "FrameTrace.cfg")
-    return vlib.run_tlc(ctx, mod, cfg, workers=workers, timeout=timeout, heap="3g", tag=f"{mode}{idx}",
+    return vlib.run_tlc(ctx, mod, cfg, workers=workers, timeout=timeout, heap="1500m", tag=f"{mode}{idx}",
                         env={"OBS": path, "MODE": mode})
 
 
@@ -157,25 +157,28 @@ def check_observations(ctx, obs, label):
     """Run all observations through FrameTrace (report mode, sharded), group the failures, confirm each group in strict
     mode (TLC exit 12 + error trace) and classify it against KNOWN_FINDINGS."""
     precheck(obs)
+    # two configurations whose observations agree in everything the specification reads are one machine run
     uniq, seen = [], set()
     for o in obs:
-        k = vlib.digest(o)
+        c = o["cfg"]
+        k = vlib.digest([[c[f] for f in ("env", "cc", "d", "ls", "la", "cs", "ca", "fp", "calls", "cp")],
+                         o["cc"], o["fd"], o["fr"], o["pro"], o["epi"], o["err"]])
         if k not in seen:
             seen.add(k)
             uniq.append(o)
     ctx.evaluations += len(obs)
     for o in uniq:
         ctx.distinct.add(vlib.digest([o["family"], o["bits"], o["fr"], o["pro"], o["epi"]]))
-    nsh = max(1, min(8, math.ceil(len(uniq) / 600)))
+    nsh = max(1, math.ceil(len(uniq) / 1500)) if len(uniq) > 4800 else max(1, min(6, math.ceil(len(uniq) / 600)))
     shards = [uniq[k::nsh] for k in range(nsh)]
     paths = []
     for k, sh in enumerate(shards):
         p = ctx.path(f"obs_{label}_{k}.ndjson")
         vlib.write_ndjson(p, sh)
         paths.append(p)
-    ctx.log(f"{label}: {len(obs)} observations, {len(uniq)} distinct, {nsh} TLC shard(s)")
+    ctx.log(f"{label}: {len(obs)} observations, {len(uniq)} distinct machine runs, {nsh} TLC shard(s)")
     fails = []        # (observation, residue, pcx, [invariants], [lost regs])
-    with concurrent.futures.ThreadPoolExecutor(max_workers=nsh) as ex:
+    with concurrent.futures.ThreadPoolExecutor(max_workers=min(nsh, 6)) as ex:
         futs = {ex.submit(run_shard, ctx, f"{label}{k}", paths[k], "report", 2, 3000): k for k in range(nsh)}
         for fu in concurrent.futures.as_completed(futs):
             k = futs[fu]
@@ -215,7 +218,7 @@ def check_observations(ctx, obs, label):
         vlib.write_ndjson(rp, [rep])
         r = run_shard(ctx, "confirm" + vlib.digest(key), rp, "strict", 1, 900)
         return key, g, cases, rep, rp, r
-    with concurrent.futures.ThreadPoolExecutor(max_workers=6) as ex:
+    with concurrent.futures.ThreadPoolExecutor(max_workers=4) as ex:
         results = list(ex.map(confirm_one, confirm))
     for key, g, cases, rep, rp, r in results:
         if r.kind != "violation":
@@ -244,7 +247,7 @@ def run(ctx):
     if len(obs) != len(cfgs):
         raise Broken(f"harness answered {len(obs)} of {len(cfgs)} configurations")
     op2 = ctx.path("obs_random.ndjson")
-    nrand = 1000 if q else 40000
+    nrand = 1000 if q else 20000
     rc, _, err = vlib.run_harness(ctx, bdir, "frame", ["random", op2, nrand], timeout=900, env={"VERIF_SEED": ctx.seed})
     if rc != 0:
         raise Broken(f"harness frame random rc={rc}: {err[-600:]}")
